@@ -80,6 +80,12 @@ pub fn any_value(finite: bool) -> BoxedStrategy<ValCase> {
                 GRef::Dangling => GRef::Node(3),
                 GRef::None => GRef::None,
             });
+            // for serde every value of the type is in the domain, including a cached face id that is
+            // present but empty (the file formats cannot spell it, the serde encodings can)
+            let val = match val {
+                GVal::Font { family, weight, style, cached: None } if family.len() % 4 == 1 => GVal::Font { family, weight, style, cached: Some(String::new()) },
+                other => other,
+            };
             ValCase { val, finite }
         })
         .boxed()
@@ -155,10 +161,59 @@ fn codec_body(case: &ValCase, ctx: &mut CaseCtx) -> PropResult {
     check("bincode", no_panic("bincode::deserialize", || bincode::deserialize::<Variant>(&b))?.map_err(|e| e.to_string()))?;
     let m = no_panic("rmp to_vec_named", || rmp_serde::to_vec_named(&variant))?.map_err(|e| Fail::new(format!("serde:msgpack-ser:{ty}"), e.to_string()))?;
     check("msgpack-named", no_panic("rmp from_slice", || rmp_serde::from_slice::<Variant>(&m))?.map_err(|e| e.to_string()))?;
+    check("bincode-reader", no_panic("bincode::deserialize_from", || bincode::deserialize_from::<_, Variant>(b.as_slice()))?.map_err(|e| e.to_string()))?;
+    check("msgpack-named-reader", no_panic("rmp from_read", || rmp_serde::from_read::<_, Variant>(m.as_slice()))?.map_err(|e| e.to_string()))?;
     let m = no_panic("rmp to_vec", || rmp_serde::to_vec(&variant))?.map_err(|e| Fail::new(format!("serde:msgpack-ser:{ty}"), e.to_string()))?;
     check("msgpack-compact", no_panic("rmp from_slice", || rmp_serde::from_slice::<Variant>(&m))?.map_err(|e| e.to_string()))?;
-    ctx.add_evals(2);
+    check("msgpack-compact-reader", no_panic("rmp from_read", || rmp_serde::from_read::<_, Variant>(m.as_slice()))?.map_err(|e| e.to_string()))?;
+    // a reader that hands out one byte per call (nothing can be borrowed from it)
+    check("msgpack-compact-trickle", no_panic("rmp from_read", || rmp_serde::from_read::<_, Variant>(Trickle(m.as_slice())))?.map_err(|e| e.to_string()))?;
+    ctx.add_evals(6);
     Ok(())
+}
+
+struct Trickle<'a>(&'a [u8]);
+
+impl std::io::Read for Trickle<'_> {
+    fn read(&mut self, buf: &mut [u8]) -> std::io::Result<usize> {
+        if self.0.is_empty() || buf.is_empty() {
+            return Ok(0);
+        }
+        buf[0] = self.0[0];
+        self.0 = &self.0[1..];
+        Ok(1)
+    }
+}
+
+/// Decoders must not remember a failed call: a rejected document, then a valid one on the same thread.
+#[derive(Clone, Debug, Serialize, Deserialize)]
+pub struct AfterFailure {
+    pub val: GVal,
+    /// which malformed documents come first
+    pub junk: Vec<u8>,
+}
+
+fn after_failure_body(c: &AfterFailure, ctx: &mut CaseCtx) -> PropResult {
+    let mut rejected = 0;
+    for j in &c.junk {
+        let ty = ["BinaryString", "SharedString", "Faces", "Axes", "UniqueId", "Ref", "Tags", "Attributes"][*j as usize % 8];
+        let docs = [
+            format!("{{\"{ty}\": \"!!!not base64 \\u0000 ===\"}}"),
+            format!("{{\"{ty}\": \"QUJD*RA==\"}}"),
+            format!("{{\"{ty}\": [\"Nope\", 3]}}"),
+            format!("{{\"{ty}\": \"{}\"}}", "Q".repeat(1 + *j as usize)),
+        ];
+        let d = &docs[(*j as usize / 8) % docs.len()];
+        if let Ok(Err(_)) = crate::engine::catch(|| serde_json::from_str::<Variant>(d)) {
+            rejected += 1;
+        }
+        let bytes: Vec<u8> = d.bytes().rev().collect();
+        let _ = crate::engine::catch(|| rmp_serde::from_slice::<Variant>(&bytes).is_ok());
+        let _ = crate::engine::catch(|| bincode::deserialize::<Variant>(&bytes[..bytes.len().min(24)]).is_ok());
+    }
+    ctx.label_if(rejected > 0, "decode_rejected_before");
+    ctx.nontrivial_if(rejected > 0);
+    codec_body(&ValCase { val: c.val.clone(), finite: true }, ctx)
 }
 
 /// RFC 4648 base64 with padding, written here so the expectation does not come from the crate under test.
@@ -458,6 +513,13 @@ pub fn run(ctx: &Ctx) -> PropertyReport {
         for l in ["ty:Ref", "ty:UniqueId", "ty:Faces", "ty:Axes", "ty:PhysicalProperties", "ty:BinaryString", "ty:SharedString", "ty:Content", "ty:Font", "ty:Attributes", "ty:MaterialColors", "ty:Tags", "ty:Region3", "ty:EnumItem", "json_codecs"] {
             r.floor(l, cases / 500);
         }
+        rep.push(r);
+    }
+    if sub.runs("after-failure") {
+        let cases = ctx.cfg.cases(60_000, 1_000_000);
+        let strat = || (any_value(true), proptest::collection::vec(any::<u8>(), 1..4)).prop_map(|(v, junk)| AfterFailure { val: v.val, junk });
+        let mut r = ctx.run_prop("after-failure", cases, strat, after_failure_body);
+        r.floor("decode_rejected_before", cases / 4);
         rep.push(r);
     }
     if sub.runs("long-values") {
